@@ -18,7 +18,7 @@ for s in $IDS; do
   echo "$s rc=$rc violations=$viol secs=$((t1-t0)) :: $first"
   /verif/.venv/bin/python - "$s" "$rc" "$viol" "$((t1-t0))" "$TIER" "$first" <<'PY'
 import json, sys, os
-p='/verif/seeded/detection.json'
+p=os.environ.get('DETECTION','/verif/seeded/detection.json')
 d=json.load(open(p)) if os.path.exists(p) else {}
 s, rc, viol, secs, tier, first = sys.argv[1:7]
 d[s]={"tier": tier, "exit_code": int(rc), "violation_lines": int(viol), "seconds": int(secs), "detected": int(rc)==1 and int(viol)>0, "first_violation": first.strip()}
